@@ -341,7 +341,7 @@ class Check:
 
     def model_drift(self, what):
         self.drift.append(what)
-        print("MODEL-DRIFT property=%s %s" % (self.pid, what), flush=True)
+        print("MODEL-DRIFT %s=%s %s" % ("spec" if self.pid.startswith("E") else "property", self.pid, what), flush=True)
 
     def sample(self, s, cap=5):
         if len(self.samples) < cap:
@@ -367,14 +367,19 @@ class Check:
         ev = dict(property_id=self.pid, tier=self.tier if self.tier in ("quick", "thorough") else "quick",
                   seed=self.seed, level=level, coverage=cov, assumptions=self.assumptions,
                   wall_s=round(wall, 2), violations=len(self.violations))
+        # extras (ids E..): specifications of behaviour BEYOND the listed properties (DESIGN 12).  They are not in
+        # MANIFEST.json, their evidence goes to extras/evidence/, and what they report is worded EXTRA-FINDING spec=<id>
+        # -- never "VIOLATION property=": no listed property is concerned.
+        extra = self.pid.startswith("E")
+        edir = os.path.join(VERIF, "extras", "evidence") if extra else os.path.join(VERIF, "evidence")
         if not os.environ.get("VERIF_NO_EVIDENCE"):
-            os.makedirs(os.path.join(VERIF, "evidence"), exist_ok=True)
-            with open(os.path.join(VERIF, "evidence", self.pid + ".json"), "w") as fh:
+            os.makedirs(edir, exist_ok=True)
+            with open(os.path.join(edir, self.pid + ".json"), "w") as fh:
                 json.dump(ev, fh, indent=1, default=str)
         for fid, what in self.known_hits:
-            print("KNOWN-FINDING: property=%s %s [%s]" % (self.pid, what, fid), flush=True)
+            print("%s=%s %s [%s]" % ("EXTRA-KNOWN: spec" if extra else "KNOWN-FINDING: property", self.pid, what, fid), flush=True)
         for what, path in self.violations[:20]:
-            print("VIOLATION property=%s replay=%s" % (self.pid, path), flush=True)
+            print("%s=%s replay=%s" % ("EXTRA-FINDING spec" if extra else "VIOLATION property", self.pid, path), flush=True)
             print("  what: %s" % what, flush=True)
         if not os.environ.get("VERIF_KEEP_WORK"):
             shutil.rmtree(self.work, ignore_errors=True)
@@ -386,6 +391,11 @@ class Check:
 # ---------------------------------------------------------------------- known findings
 def load_findings(pid=None):
     p = os.path.join(VERIF, "known_findings.json")
+    if pid and pid.startswith("E"):
+        p = os.path.join(VERIF, "extras", "known_findings.json")     # same format, key "spec" instead of "property"
+        if os.path.exists(p):
+            return [f for f in json.load(open(p)).get("findings", []) if f.get("spec") == pid]
+        return []
     if not os.path.exists(p):
         return []
     fs = json.load(open(p)).get("findings", [])
@@ -529,7 +539,7 @@ def main(pid, fn):
         fa = getattr(c, "finish_args", None) or dict(rule="aborted by a panic of the code under test", distinct_nontrivial=0)
         rc = c.finish(**fa)
     except Inconclusive as e:
-        print("INCONCLUSIVE property=%s %s" % (pid, e), flush=True)
+        print("INCONCLUSIVE %s=%s %s" % ("spec" if pid.startswith("E") else "property", pid, e), flush=True)
         rc = 2
     except Exception:
         import traceback
